@@ -212,4 +212,27 @@ theorem sequentialCB_ext_rows_alone (w : SeqWorldX σ V R P) (cfg cfg' : Cfg) (p
 
 end phase5
 
+section phase6
+variable {σ V R : Type} [DecidableEq V] [Coba.C06.RewardFn R V]
+
+/-- the rows of a triple of an experiment over SequentialCB and RejectionCB objects do not depend on which other triples
+the experiment lists, on their order, on the configuration or on the schedule: the generator of a RejectionCB, its sorted
+ratio list `Q` and its multiplier `c` live inside one `evaluate` call and are not shared between evaluations -/
+theorem rejectionCB_rows_isolated (w : SeqWorldR σ V R P) (cfg cfg' : Cfg) (picks picks' : List Nat)
+    (seed : Nat) (ts ts' : List Triple) (t : Triple) (ht : t ∈ ts) (ht' : t ∈ ts') :
+    (run (seqCompsR w) cfg picks seed ts).rowsOf (idKey ts t) =
+      (run (seqCompsR w) cfg' picks' seed ts').rowsOf (idKey ts' t) :=
+  rows_independent_of_other_triples (seqCompsR w) cfg cfg' picks picks' seed ts ts' t ht ht'
+
+/-- … and equal the rows of the experiment that lists this triple alone -/
+theorem rejectionCB_rows_alone (w : SeqWorldR σ V R P) (cfg cfg' : Cfg) (picks picks' : List Nat)
+    (seed : Nat) (ts : List Triple) (t : Triple) (ht : t ∈ ts) :
+    (run (seqCompsR w) cfg picks seed ts).rowsOf (idKey ts t) =
+      (run (seqCompsR w) cfg' picks' seed [t]).rowsOf (0, 0, 0) := by
+  have h := rows_independent_of_other_triples (seqCompsR w) cfg cfg' picks picks' seed ts [t] t ht
+    (List.mem_singleton.2 rfl)
+  rwa [idKey_singleton] at h
+
+end phase6
+
 end Coba.C03
